@@ -212,11 +212,18 @@ class P(Prop):
         "(mode full/semi/none, window min 1-7 (rarely 0) and max min+0..8 or 50, budget 0-3, Met flag); thorough adds all "
         "sequences <= 7 over the alphabet for trypsin, lys-n, chymotrypsin+, asp-n (72 runs each for <= 5, 6 rotating runs "
         "for 6-7); non-trivial = a run whose spec set is non-empty on a sequence with an enzymatic or Met site; distinct by "
-        "sha1 of the case"
+        "sha1 of the case.  7% of the cases are of kind 'config' (the digestion as configured): 1-3 parameter sets given as "
+        "command-line option lists (each option absent / one value / one value per set, rarely lists that do not fit; enzymes "
+        "of the table, modes full/semi/none, min 0-7, max 3-60, budget 0-3, special residues KR/none/K/R/'', decoys "
+        "generated or not), 1-4 proteins of length 1-40 in 1-2 FASTA files, 1-2 DigestionParams(...) calls with a random "
+        "subset of the arguments given (0 values included), and 2-3 (thorough: all 7) non-empty combinations of the digest "
+        "tool's output options; non-trivial = some protein is listed with >= 2 peptides"
     )
     assumptions = [
         "Python str slicing / list semantics as documented (seq[a:b] clamps at the end)",
         "sequences are non-empty for the set-equality statement (the code raises IndexError or yields only '' on '')",
+        "config cases: FASTA files are well formed with distinct identifiers (parsing, duplicate identifiers and the order "
+        "of the map's rows are C09's statement); argparse hands get_digestion_params_list non-empty lists",
     ]
 
     # ------------------------------------------------------------------ generation
